@@ -559,6 +559,103 @@ class Engine:
             return m, None, node, 'loop'
         return self.repo.find(c.qual)
 
+    # ---- solver-chosen inputs satisfying a contract's precondition (for the CPython cross-check, tools/native_smoke.py)
+    def smoke_inputs(self, c, variants=3):
+        found = self.find_target(c)
+        if found is None:
+            return []
+        m, ci, node, kind = found
+        self.current = c
+        self.overrides = dict(c.overrides)
+        out = []
+        for k in range(variants):
+            path = Path(self, [])
+            path.hyps = lambda extra=(), _p=path: axioms.build_hyps(self, list(_p.pc) + list(extra), _p.univ, _p.idx,
+                                                                    _p.apps, _p.sums, _p)
+            it = Interp(self, path)
+            bc = BCtx(path)
+            self.bctx = bc
+            try:
+                vals = {nm: b(bc, nm) for nm, b in c.params.items()}
+                path.inputs = vals
+                path.live = vals
+                path.contract = c
+                env = self.spec_env(it, c, m, vals)
+                self.eval_lets(it, c, env, pre=True)
+                for nm, ex in c.requires:
+                    path.assume(self.eval_clause(it, ex, env))
+            except (Infeasible, Unsupported, PyExc):
+                return out
+            s = z3.Solver()
+            s.set('timeout', 5000)
+            s.set('random_seed', 17 * k + 1)
+            for h in path.hyps():
+                s.add(h)
+            # spread the variants: different array lengths, values away from zero where the precondition allows it
+            for d in path.dims.values():
+                s.add(d == min(1 + k, 3)) if k < 2 else s.add(d <= 4)
+            if s.check() != z3.sat:
+                s = z3.Solver()
+                s.set('timeout', 5000)
+                for h in path.hyps():
+                    s.add(h)
+                if s.check() != z3.sat:
+                    continue
+            # prefer inputs of ordinary magnitude (the solver's default choice is 0 or astronomically large values, on which
+            # float rounding, not the code, decides a native comparison): one symbol at a time, kept only if still satisfiable
+            consts = {}
+
+            def _collect(v, depth=0):
+                if depth > 6 or len(consts) > 80:
+                    return
+                if isinstance(v, SV):
+                    if v.t.sort() == z3.RealSort() and not z3.is_rational_value(v.t):
+                        consts.setdefault(v.t.get_id(), v.t)
+                elif isinstance(v, Opt):
+                    _collect(v.val, depth + 1)
+                elif isinstance(v, Vec):
+                    for i in range(3):
+                        try:
+                            _collect(v.at(z3.IntVal(i)) if not isinstance(v.n, int) else (v.at(i) if i < v.n else None), depth + 1)
+                        except Exception:
+                            pass
+                elif isinstance(v, Obj):
+                    for x in v.fields.values():
+                        _collect(x, depth + 1)
+                elif isinstance(v, (list, tuple)):
+                    for x in v:
+                        _collect(x, depth + 1)
+                elif isinstance(v, dict):
+                    for x in v.values():
+                        _collect(x, depth + 1)
+            _collect(vals)
+            for h in s.assertions():
+                for t in axioms.walk([h]):
+                    if z3.is_const(t) and t.decl().kind() == z3.Z3_OP_UNINTERPRETED and t.sort() == z3.RealSort():
+                        consts.setdefault(t.get_id(), t)
+                if len(consts) > 80:
+                    break
+            lo, hi = [(0.25, 4), (0.5, 2), (1, 8)][k % 3]
+            for t in list(consts.values())[:80]:
+                for rng in ((lo, hi), (-hi, -lo)):
+                    s.push()
+                    s.add(t >= rng[0], t <= rng[1])
+                    if s.check() == z3.sat:
+                        break
+                    s.pop()
+            if s.check() != z3.sat:
+                continue
+            mdl = s.model()
+            # instantiate the universal preconditions at every index of the chosen sizes so that the model is total
+            try:
+                import types as _types
+                cm = self.extract_model(path, s, mdl, _types.SimpleNamespace(univ=list(path.univ)))
+            except Exception:
+                continue
+            if cm and 'inputs' in cm:
+                out.append(cm)
+        return out
+
     # ---- verification of one contract
     def verify(self, c):
         t0 = time.time()
